@@ -9,6 +9,7 @@
 # indices differ.
 
 def T(kind, data, name=None, prec=0, assoc='none', typed=False):
+    unnamed = False
     if name is None:
         if kind == 'char':
             c = data
@@ -17,9 +18,10 @@ def T(kind, data, name=None, prec=0, assoc='none', typed=False):
             name = data
         elif kind == 'regex':
             name = 'r_' + data
+            unnamed = True
         else:
             raise ValueError('custom terms need a name')
-    return dict(kind=kind, data=data, name=name, prec=prec, assoc=assoc, typed=typed)
+    return dict(kind=kind, data=data, name=name, prec=prec, assoc=assoc, typed=typed, unnamed=unnamed)
 
 FLEET = {}
 
@@ -53,7 +55,7 @@ FLEET['G1'] = dict(
 
 FLEET['G2'] = dict(
     terms=[
-        ('id', T('regex', '[a-z][a-z0-9]*', 'id')),
+        ('id', T('regex', '[a-z][a-z0-9]*')),      # UNNAMED: its display name is r_<pattern>
         ('plus', T('char', '+')),
         ('mul', T('char', '*')),
         ('lp', T('char', '(')),
@@ -125,6 +127,7 @@ FLEET['G4'] = dict(
     values=['node', 'mnode'],
 )
 
+# (long descriptive nonterminal names: the printed form of the if-rule is > 250 characters)
 FLEET['G5'] = dict(
     terms=[
         ('kw_if', T('string', 'if')),
@@ -140,22 +143,22 @@ FLEET['G5'] = dict(
         ('rb', T('char', '}')),
         ('semi', T('char', ';')),
     ],
-    nterms=['prog', 'stmts', 'stmt', 'block', 'expr', 'atom'],
-    root='prog',
+    nterms=['translation_unit_of_the_little_language', 'sequence_of_statements_possibly_empty', 'one_statement_of_the_little_language', 'brace_enclosed_block_of_statements', 'expression_with_optional_comparison', 'atomic_operand_of_an_expression'],
+    root='translation_unit_of_the_little_language',
     rules=[
-        ('atom', ['id'], 'plain'),
-        ('prog', ['stmts'], 'default'),
-        ('stmt', ['id', 'assign', 'expr', 'semi'], 'plain'),
-        ('stmts', [], 'plain'),
-        ('atom', ['num'], 'plain'),
-        ('stmt', ['kw_if', 'lp', 'expr', 'rp', 'block', 'kw_else', 'block'], 'plain'),
-        ('expr', ['atom'], 'default'),
-        ('stmts', ['stmts', 'stmt'], 'plain'),
-        ('stmt', ['kw_while', 'lp', 'expr', 'rp', 'block'], 'ctx'),
-        ('block', ['lb', 'stmts', 'rb'], 'plain'),
-        ('expr', ['atom', 'eq', 'atom'], 'plain'),
-        ('stmt', ['block'], 'default'),
-        ('atom', ['lp', 'expr', 'rp'], 'plain'),
+        ('atomic_operand_of_an_expression', ['id'], 'plain'),
+        ('translation_unit_of_the_little_language', ['sequence_of_statements_possibly_empty'], 'default'),
+        ('one_statement_of_the_little_language', ['id', 'assign', 'expression_with_optional_comparison', 'semi'], 'plain'),
+        ('sequence_of_statements_possibly_empty', [], 'plain'),
+        ('atomic_operand_of_an_expression', ['num'], 'plain'),
+        ('one_statement_of_the_little_language', ['kw_if', 'lp', 'expression_with_optional_comparison', 'rp', 'brace_enclosed_block_of_statements', 'kw_else', 'brace_enclosed_block_of_statements'], 'plain'),
+        ('expression_with_optional_comparison', ['atomic_operand_of_an_expression'], 'default'),
+        ('sequence_of_statements_possibly_empty', ['sequence_of_statements_possibly_empty', 'one_statement_of_the_little_language'], 'plain'),
+        ('one_statement_of_the_little_language', ['kw_while', 'lp', 'expression_with_optional_comparison', 'rp', 'brace_enclosed_block_of_statements'], 'ctx'),
+        ('brace_enclosed_block_of_statements', ['lb', 'sequence_of_statements_possibly_empty', 'rb'], 'plain'),
+        ('expression_with_optional_comparison', ['atomic_operand_of_an_expression', 'eq', 'atomic_operand_of_an_expression'], 'plain'),
+        ('one_statement_of_the_little_language', ['brace_enclosed_block_of_statements'], 'default'),
+        ('atomic_operand_of_an_expression', ['lp', 'expression_with_optional_comparison', 'rp'], 'plain'),
     ],
     values=['node'],
 )
@@ -335,6 +338,10 @@ FLEET['G12'] = dict(
         # pattern features not used elsewhere in the fleet: {n} repetition, '.', hex escape, optional group
         ('hex', T('regex', '#[0-9a-f]{2}', 'hex', typed=True)),
         ('at', T('regex', '@.(\\x2e.)?', 'at')),
+        # alternatives whose first characters overlap only partly and that converge on the same tail
+        ('digit', T('regex', '9[0-2]|[0-9]', 'digit')),
+        # a second term with the SAME display name as 'word' (display names are debug names; ids differ)
+        ('upper', T('regex', '[A-Z]+', 'word')),
     ],
     nterms=['text', 'item'],
     root='text',
@@ -347,6 +354,8 @@ FLEET['G12'] = dict(
         ('text', ['text', 'del', 'item'], 'ctx'),
         ('item', ['hex'], 'plain'),
         ('item', ['at', 'word'], 'plain'),
+        ('item', ['digit'], 'plain'),
+        ('item', ['upper'], 'plain'),
     ],
     values=['node'],
     prefer_no_skip_ws=True,
@@ -420,6 +429,7 @@ FLEET['G15'] = dict(
         ('lp', T('char', '(')),
         ('rp', T('char', ')')),
         ('comma', T('char', ',')),
+        ('rel', T('regex', '>=|[>=!]=', 'rel', typed=True)),
     ],
     nterms=['list', 'expr'],
     root='list',
@@ -434,6 +444,7 @@ FLEET['G15'] = dict(
         ('expr', ['expr', 'minus', 'expr'], 'plain'),
         ('expr', ['lp', 'expr', 'rp'], 'plain'),
         ('expr', ['expr', 'lt', 'expr'], 'plain'),
+        ('expr', ['expr', 'rel', 'expr'], 'plain'),
     ],
     values=['node', 'mnode'],
 )
